@@ -17,6 +17,7 @@ import LogosModel.Emit
 import LogosModel.PassesAll
 import LogosModel.StateType
 import LogosModel.Subst
+import LogosModel.Calls
 import LogosModel.Look.Utf8ClosedC
 import Std.Data.HashMap
 import LogosModel.Source
@@ -350,6 +351,24 @@ def specStr (c : Case) (inp : List Nat) : String :=
      | none => "LOOK") else
   streamStr c (specLex c.prios.toList c.res c.cb c.utf8 inp)
 
+/-- "CALLS": the ordinary stream of the generated lexer followed by the number of callback invocations (`graphCalls`) -/
+def callsStr (c : Case) (inp : List Nat) : String :=
+  let hasCb := fun l => c.cbs.getD l 0 != 0
+  let r := lexAllN (walkAttempt c.graph false inp) c.cb hasCb c.utf8 inp
+  streamStr c r.1 ++ s!" #{r.2}"
+
+/-- "SPECCALLS": the same for the reference lexer (`specCalls` / `specCallsC`) -/
+def specCallsStr (c : Case) (inp : List Nat) : String :=
+  let hasCb := fun l => c.cbs.getD l 0 != 0
+  if c.hasLook then
+    (match c.table with
+     | some _ =>
+       let r := lexAllN (LK.scanAttemptC (LK.oracleFast c.lookM) c.prios.toList c.resL inp) c.cb hasCb c.utf8 inp
+       streamStr c r.1 ++ s!" #{r.2}"
+     | none => "LOOK") else
+  let r := lexAllN (scanAttempt c.prios.toList c.res inp) c.cb hasCb c.utf8 inp
+  streamStr c r.1 ++ s!" #{r.2}"
+
 def evStr : Ev → String
   | .next p => s!"N{p}"
   | .read o n h => s!"R{o}/{n}" ++ (if h then "+" else "-")
@@ -447,6 +466,8 @@ def answer (c : Case) (q : List String) : String :=
   | ["LEX", "n", hex] => lexStr c false (unhex hex)
   | ["LEX", "p", hex] => lexStr c true (unhex hex)
   | ["SPEC", hex] => specStr c (unhex hex)
+  | ["CALLS", hex] => callsStr c (unhex hex)
+  | ["SPECCALLS", hex] => specCallsStr c (unhex hex)
   | ["PSPEC", hex] => specPStr c (unhex hex)
   | ["LEX", "t", hex] => traceStr c false (unhex hex)
   | ["UTF8CLOSED"] => " ".intercalate (c.hirs.toList.map utf8Verdict)
